@@ -110,168 +110,78 @@ theorem release_zero_witness : tagOkY ctxLinux (.rel 0) = true ∧ Spec.matchTag
 
 /-! ### file names -/
 
-/-- a word the toolchain's matchTag treats plainly: true iff it is GOOS or GOARCH -/
-def plain (c : Ctx) (w : String) : Bool := !special c w && !c.tags.contains w
+/-- the tables of interp/build.go are the toolchain's (go/build syslist.go) -/
+theorem tables_are_go : Expected.C17.known = ⟨Spec.knownOS, Spec.knownArch⟩ := by decide
 
-theorem matchWord_plain (c : Ctx) (w : String) (h : plain c w = true) :
-    Spec.matchWord c w = (w == c.goos || w == c.goarch) := by
-  simp only [plain, special, Bool.and_eq_true, Bool.not_eq_true', Bool.or_eq_false_iff,
-    Bool.and_eq_false_iff] at h
-  obtain ⟨⟨⟨⟨⟨⟨⟨h1, h2⟩, h3⟩, h4⟩, h5⟩, h6⟩, h7⟩, h8⟩ := h
-  unfold Spec.matchWord
-  by_cases hg : w == c.goos <;> by_cases ha : w == c.goarch <;> simp_all <;> grind
+/-- contexts in which the compiler name is not itself an OS or architecture word (it is "gc") -/
+def ctxOk (c : Ctx) : Bool := !Spec.knownOS.contains c.compiler && !Spec.knownArch.contains c.compiler
 
-/-- the two tables agree with the toolchain's on this word -/
-def tablesAgree (k : Known) (w : String) : Bool :=
-  (k.os.contains w == Spec.knownOS.contains w) && (k.arch.contains w == Spec.knownArch.contains w)
+/-- on an OS / architecture word the toolchain's matchTag is yaegi's matchOsArch -/
+theorem matchWord_osarch (c : Ctx) (w : String) (hc : ctxOk c = true)
+    (hw : (Spec.knownOS.contains w || Spec.knownArch.contains w) = true) :
+    Spec.matchWord c w = matchOsArchY c w := by
+  have h1 : w ≠ "cgo" := by intro h; subst h; revert hw; decide
+  have h2 : w ≠ "unix" := by intro h; subst h; revert hw; decide
+  have h3 : w ≠ "boringcrypto" := by intro h; subst h; revert hw; decide
+  have h4 : w ≠ c.compiler := by
+    intro h; subst h
+    simp only [ctxOk, Bool.and_eq_true, Bool.not_eq_true'] at hc
+    rw [hc.1, hc.2] at hw
+    exact absurd hw (by decide)
+  unfold Spec.matchWord matchOsArchY
+  simp [h1, h2, h3, h4]
+  by_cases a1 : w = c.goos <;> by_cases a2 : w = c.goarch <;> simp [a1, a2] <;> grind
 
-/-- Domain of the file-name theorem (decidable):
-    the context is an ordinary one (GOOS/GOARCH known to the toolchain, GOOS not one that implies another);
-    the name is not a `_test` name unless test files are excluded anyway;
-    the last two elements are words on which yaegi's tables agree with the toolchain's, treated plainly;
-    and the *last* element is not a foreign OS name when it is preceded by something that is not a
-    known-OS/known-arch pair (this is the class of F18). -/
-def domName (k : Known) (c : Ctx) (elems : List String) (skipTest : Bool) : Bool :=
-  Spec.knownOS.contains c.goos && Spec.knownArch.contains c.goarch &&
-  !Spec.knownArch.contains c.goos && !Spec.knownOS.contains c.goarch &&
-  (skipTest || !isTestName elems) &&
-  match elems.tail.reverse with
-  | [] => true
-  | [x] => tablesAgree k x && plain c x
-  | y :: x :: _ =>
-    tablesAgree k x && tablesAgree k y && plain c x && plain c y &&
-    -- F18 class: the last element is an OS name, so the toolchain looks at it alone
-    !(Spec.knownOS.contains y && y != c.goos)
-
-/-- goodOSArchFile's decision as a function of the reversed tail `y :: rest` of the name elements -/
-def goodTail (c : Ctx) (y : String) : List String → Bool
-  | [] => if Spec.knownOS.contains y || Spec.knownArch.contains y then Spec.matchWord c y else true
-  | x :: _ =>
-    if Spec.knownOS.contains x && Spec.knownArch.contains y then Spec.matchWord c y && Spec.matchWord c x
-    else if Spec.knownOS.contains y || Spec.knownArch.contains y then Spec.matchWord c y else true
-
-theorem goodOSArch_eq (c : Ctx) (elems : List String) (y : String) (rest : List String)
-    (hr : elems.tail.reverse = y :: rest) (hy : y ≠ "test") :
-    Spec.goodOSArch c elems = goodTail c y rest := by
-  have ht : elems.tail = rest.reverse ++ [y] := by
-    rw [← List.reverse_reverse elems.tail, hr]; simp
-  clear hr
-  unfold Spec.goodOSArch
-  rw [ht]
-  cases rest with
-  | nil =>
-    have h0 : "" ∉ Spec.knownOS := by decide
-    simp [hy, goodTail, h0]
-  | cons x r =>
-    have h1 : ("" :: (r.reverse ++ [x, y])).getLast? = some y := by simp [List.getLast?_cons]
-    have h2 : ("" :: (r.reverse ++ [x, y])).reverse = y :: x :: (r ++ [""]) := by simp
-    simp only [List.reverse_cons, List.append_assoc, List.cons_append, List.nil_append]
-    simp [h1, hy, h2, goodTail]
-
-theorem last_ne_test (elems : List String) (y : String) (rest : List String)
-    (hr : elems.tail.reverse = y :: rest) (ht : isTestName elems = false) : y ≠ "test" := by
-  have htl : elems.tail = rest.reverse ++ [y] := by
-    rw [← List.reverse_reverse elems.tail, hr]; simp
-  cases elems with
-  | nil => simp at hr
-  | cons hd tl =>
-    simp only [List.tail_cons] at htl
-    subst htl
-    intro h
-    subst h
-    simp [isTestName, List.getLast?_cons] at ht
-
-private theorem bool_single (p q a b : Bool)
-    (f1 : p = true → a = true ∧ b = false) (f2 : q = true → b = true ∧ a = false) :
-    ((a && !p) || (b && !q)) = !(if (a || b) = true then (p || q) else true) := by
-  revert p q a b; decide
-
-private theorem bool_pair (px qx py qy ax ay bb : Bool)
-    (fx1 : px = true → ax = true) (fx2 : qx = true → ax = false)
-    (fy1 : py = true → ay = true ∧ bb = false) (fy2 : qy = true → bb = true ∧ ay = false)
-    (f18 : ay = false ∨ py = true) :
-    (if px = true then (if bb = true then !qy else false)
-     else if (ax && bb) = true then true
-     else if (bb && !qy) = true then true else false) =
-    !(if (ax && bb) = true then (py || qy) && (px || qx)
-      else if (ay || bb) = true then (py || qy) else true) := by
-  revert px qx py qy ax ay bb; decide
-
-theorem name_rule_partial (k : Known) (c : Ctx) (elems : List String) (skipTest : Bool)
-    (h : domName k c elems skipTest = true) :
-    skipElemsY k c elems skipTest = !Spec.selectedElems c elems skipTest := by
-  unfold domName at h
-  simp only [Bool.and_eq_true, Bool.not_eq_true', Bool.or_eq_true] at h
-  obtain ⟨⟨⟨⟨⟨hos, harch⟩, hosa⟩, haos⟩, htest⟩, hm⟩ := h
-  unfold skipElemsY Spec.selectedElems
-  by_cases hst : (skipTest && isTestName elems) = true
+/-- **The file-name rule is the toolchain's**, for every context (with an ordinary compiler name),
+    every name and both settings of `skipTest`: no side condition on the name. -/
+theorem name_rule_correct (c : Ctx) (isTest : Bool) (elems : List String) (skipTest : Bool)
+    (hc : ctxOk c = true) :
+    skipElemsY Expected.C17.known c isTest elems skipTest = !Spec.selectedElems c isTest elems skipTest := by
+  rw [tables_are_go]
+  unfold skipElemsY Spec.selectedElems Spec.goodOSArch
+  by_cases hst : (skipTest && isTest) = true
   · simp [hst]
-  · have hnt : isTestName elems = false := by
-      rcases htest with h1 | h1
-      · simp [h1] at hst; exact hst
-      · exact h1
-    simp only [hst, Bool.false_eq_true, if_false, Bool.not_false, Bool.true_and]
-    generalize hr : elems.tail.reverse = r at hm
-    match r, hr, hm with
-    | [], hr, _ =>
-      have : elems.tail = [] := by simpa using hr
-      simp [Spec.goodOSArch, this]
-    | [x], hr, hm =>
-      rw [goodOSArch_eq c elems x [] hr (last_ne_test elems x [] hr hnt)]
-      simp only [Bool.and_eq_true, tablesAgree, beq_iff_eq] at hm
-      obtain ⟨⟨ho, ha⟩, hp⟩ := hm
-      simp only [goodTail]
-      rw [matchWord_plain c x hp, ho, ha]
-      have f1 : (x == c.goos) = true → Spec.knownOS.contains x = true ∧ Spec.knownArch.contains x = false := by
-        intro h; rw [beq_iff_eq] at h; subst h; exact ⟨hos, hosa⟩
-      have f2 : (x == c.goarch) = true → Spec.knownArch.contains x = true ∧ Spec.knownOS.contains x = false := by
-        intro h; rw [beq_iff_eq] at h; subst h; exact ⟨harch, haos⟩
-      exact bool_single _ _ _ _ f1 f2
-    | y :: x :: rest, hr, hm =>
-      rw [goodOSArch_eq c elems y (x :: rest) hr (last_ne_test elems y (x :: rest) hr hnt)]
-      simp only [Bool.and_eq_true, tablesAgree, beq_iff_eq, Bool.not_eq_true', Bool.and_eq_false_iff,
-        bne_eq_false_iff_eq] at hm
-      obtain ⟨⟨⟨⟨⟨hox, hax⟩, ⟨hoy, hay⟩⟩, hpx⟩, hpy⟩, hf18⟩ := hm
-      simp only [goodTail]
-      rw [matchWord_plain c x hpx, matchWord_plain c y hpy, hox, hay]
-      have fx1 : (x == c.goos) = true → Spec.knownOS.contains x = true := by
-        intro h; rw [beq_iff_eq] at h; subst h; exact hos
-      have fx2 : (x == c.goarch) = true → Spec.knownOS.contains x = false := by
-        intro h; rw [beq_iff_eq] at h; subst h; exact haos
-      have fy1 : (y == c.goos) = true → Spec.knownOS.contains y = true ∧ Spec.knownArch.contains y = false := by
-        intro h; rw [beq_iff_eq] at h; subst h; exact ⟨hos, hosa⟩
-      have fy2 : (y == c.goarch) = true → Spec.knownArch.contains y = true ∧ Spec.knownOS.contains y = false := by
-        intro h; rw [beq_iff_eq] at h; subst h; exact ⟨harch, haos⟩
-      have f18 : Spec.knownOS.contains y = false ∨ (y == c.goos) = true := by
-        rcases hf18 with h | h
-        · exact Or.inl h
-        · exact Or.inr (by simp [h])
-      exact bool_pair _ _ _ _ _ _ _ fx1 fx2 fy1 fy2 f18
+  · simp only [hst, Bool.false_eq_true, if_false, Bool.not_false, Bool.true_and]
+    cases htl : elems.tail with
+    | nil => rfl
+    | cons t ts =>
+      simp only []
+      generalize (if ("" :: t :: ts).getLast? == some "test" then ("" :: t :: ts).dropLast else "" :: t :: ts).reverse = r
+      match r with
+      | [] => rfl
+      | [y] =>
+        simp only []
+        cases hy : (Spec.knownOS.contains y || Spec.knownArch.contains y) with
+        | true => simp only [if_true]; rw [matchWord_osarch c y hc hy]
+        | false => simp
+      | y :: x :: _ =>
+        simp only []
+        cases hxy : (Spec.knownOS.contains x && Spec.knownArch.contains y) with
+        | true =>
+          simp only [if_true]
+          rw [Bool.and_eq_true] at hxy
+          rw [matchWord_osarch c y hc (by rw [hxy.2, Bool.or_true]), matchWord_osarch c x hc (by rw [hxy.1, Bool.true_or])]
+        | false =>
+          simp only [Bool.false_eq_true, if_false]
+          cases hy : (Spec.knownOS.contains y || Spec.knownArch.contains y) with
+          | true => simp only [if_true]; rw [matchWord_osarch c y hc hy]
+          | false => simp
 
-/-- **File-name rule of the current source agrees with the toolchain** on the decidable domain `domName`
-    (the tables are the ones regenerated from /repo; `known_tie` links them to the proof). -/
-theorem name_rule_generated (c : Ctx) (elems : List String) (skipTest : Bool)
-    (h : domName Generated.C17.known c elems skipTest = true) :
-    skipElemsY Generated.C17.known c elems skipTest = !Spec.selectedElems c elems skipTest :=
-  name_rule_partial _ c elems skipTest h
+/-- … and therefore for the tables regenerated from the current source (`known_tie`) -/
+theorem name_rule_generated (c : Ctx) (isTest : Bool) (elems : List String) (skipTest : Bool)
+    (hc : ctxOk c = true) :
+    skipElemsY Generated.C17.known c isTest elems skipTest = !Spec.selectedElems c isTest elems skipTest := by
+  rw [known_tie]; exact name_rule_correct c isTest elems skipTest hc
 
-/-- non-vacuity: ordinary names are in the domain, in both arities -/
-example : domName Expected.C17.known ctxLinux ["zfile", "windows", "amd64"] true = true ∧
-          domName Expected.C17.known ctxLinux ["zfile", "linux", "arm64", "test"] true = true ∧
-          domName Expected.C17.known ctxLinux ["a", "b", "darwin"] false = false ∧
-          skipElemsY Expected.C17.known ctxLinux ["zfile", "windows", "amd64"] true = true := by decide
-
-/-- F18: `foo_bar_windows.go` on linux — the toolchain ignores it, yaegi selects it -/
-theorem unknown_prefix_os_witness :
-    skipElemsY Expected.C17.known ctxLinux ["foo", "bar", "windows"] true = false ∧
-    Spec.selectedElems ctxLinux ["foo", "bar", "windows"] true = false := by decide
-
-/-- F19: OS / architectures missing from yaegi's tables -/
-theorem missing_os_arch_witness :
-    skipElemsY Expected.C17.known ctxLinux ["e", "zos"] true = false ∧
-    Spec.selectedElems ctxLinux ["e", "zos"] true = false ∧
-    skipElemsY Expected.C17.known ctxLinux ["e", "riscv64"] true = false ∧
-    Spec.selectedElems ctxLinux ["e", "riscv64"] true = false := by decide
+/-- non-vacuity and regression witnesses: the inputs of the repaired findings F18, F19, F32, F34 now
+    get the toolchain's answer -/
+example : ctxOk ctxLinux = true ∧
+    skipElemsY Expected.C17.known ctxLinux false ["foo", "bar", "windows"] true = true ∧
+    skipElemsY Expected.C17.known ctxLinux false ["e", "zos"] true = true ∧
+    skipElemsY Expected.C17.known ctxLinux false ["e", "riscv64"] true = true ∧
+    skipElemsY Expected.C17.known ctxLinux true ["x", "windows", "test"] false = true ∧
+    skipElemsY Expected.C17.known ctxLinux false ["zfile", "linux", "amd64"] true = false ∧
+    skipElemsY Expected.C17.known { ctxLinux with tags := ["windows"] } false ["f", "windows"] true = false := by decide
 
 /-- F17: a `//go:build` line is dropped by CommentGroup.Text, so buildOk never sees it;
     the toolchain evaluates it (here `windows` on linux ⇒ not selected). -/
